@@ -27,7 +27,7 @@ def run(tier, seed):
     for viol in res['violations']:
         v.violation(viol['sig'], viol.get('replay'))
     # the damaged highest chunk beyond the 4 GiB mark (sparse file, hash offsets cross 2^32)
-    sp = vlib.run_vh_sharded(['xfer-special', '-seed', str(seed), '-groups', 'largetorn'], 2, timeout=1800)
+    sp = vlib.run_vh_sharded(['xfer-special', '-seed', str(seed), '-groups', 'largetorn,lateinfo'], 4, timeout=1800)
     for viol in sp['violations']:
         if viol['sig'].get('property') == 'C06':
             v.violation(viol['sig'], viol.get('replay'))
